@@ -151,3 +151,10 @@ Theorem C13_source_make_child : forall (B : backend) (u : url) (paths : list str
   gen_make_child B u paths encoded = make_child B u paths encoded.
 Proof. exact gen_make_child_ok. Qed.
 Print Assumptions C13_source_make_child.
+
+(** ... and raw_suffixes / suffixes *)
+From Yarl Require Import Proofs.GenHumanProofs.
+Theorem C13_source_suffixes : forall (B : backend) (u : url),
+  gen_raw_suffixes u = Ok (raw_suffixes u) /\ gen_suffixes B u = Ok (suffixes B u).
+Proof. exact gen_suffixes_ok. Qed.
+Print Assumptions C13_source_suffixes.
